@@ -84,6 +84,24 @@ func fmtInt(v *big.Int, f string) string {
 }
 
 func rangeLiteral(c pCase) (string, bool) {
+	if strings.HasPrefix(c.Kind, "complex") {
+		// the range rule applies to each component
+		fk := "float32"
+		if c.Kind == "complex128" {
+			fk = "float64"
+		}
+		part, ok := rangeLiteral(pCase{Kind: fk, B: c.B, Off: c.Off})
+		if !ok {
+			return "", false
+		}
+		if c.Fmt == "hex" { // used as "the imaginary part carries the literal"
+			if strings.HasPrefix(part, "-") {
+				return "(1" + part + "i)", true
+			}
+			return "(1+" + part + "i)", true
+		}
+		return part, true
+	}
 	if strings.HasPrefix(c.Kind, "float") {
 		max := "3.4028234663852886e+38"
 		out := "3.5e+38"
@@ -175,7 +193,7 @@ func runRange(c pCase) (mis []map[string]any) {
 	if !c.Accept && err == nil {
 		return append(mis, pMis("prop", fmt.Sprintf("%s literal %q (%s) is outside the range of %s but was accepted as %v (wrapped / truncated / saturated)", c.Ctx, lit, c.Fmt, c.Kind, got)))
 	}
-	if c.Accept && !strings.HasPrefix(c.Kind, "float") {
+	if c.Accept && !strings.HasPrefix(c.Kind, "float") && !strings.HasPrefix(c.Kind, "complex") {
 		// the value itself
 		want, _ := new(big.Int).SetString(strings.ReplaceAll(strings.TrimSpace(lit), "_", ""), 0)
 		gv := reflect.ValueOf(got)
